@@ -1,5 +1,6 @@
 import PfModel.Generated.C12Facts
 import PfModel.Model.Validate
+import PfModel.Model.ValidateEdit
 /-!
 C12, the tie to the source: the call order of `prepare_run` / `RunInfo.create`, re-extracted from /repo with `ast` on every run
 (`harness/c12_extract.py` → `Generated/C12Facts.lean`).  These two `decide` proofs are the only C12 obligations that can stop
@@ -53,5 +54,50 @@ theorem C12_ctor_pipefunc_init : ctorValidates pipeFuncInitRequired Generated.pi
 theorem C12_ctor_pipefunc_validate :
     (ctorValidates pipeFuncValidateRequired Generated.pipeFuncValidateCalls &&
      isSubseq pipeFuncValidateRequired Generated.pipeFuncValidateCalls) = true := by decide
+
+/-! #### round 3: what is re-validated lazily after an in-place edit; the update methods; the executor dictionary -/
+
+/-- the cached property `Pipeline.graph` re-validates the output names and the shared defaults before it builds the graph
+    (`lazySteps`, first two checks) — the tie that the removal of either call breaks -/
+theorem C12_lazy_graph :
+    (requiredBefore ["validate_unique_output_names_of", "validate_consistent_defaults"] "nx.DiGraph" Generated.pipelineGraphCalls &&
+     isSubseq ["validate_unique_output_names_of", "validate_consistent_defaults", "nx.DiGraph"] Generated.pipelineGraphCalls) = true := by decide
+
+/-- `Pipeline.topological_generations` reads `graph` and calls `nx.topological_generations` (the cycle check, third lazy check) -/
+theorem C12_lazy_topological :
+    ((Generated.pipelineTopoCalls.contains "self.graph" || Generated.pipelineTopoCalls.contains "self.graph.copy") &&
+     Generated.pipelineTopoCalls.contains "nx.topological_generations") = true := by decide
+
+/-- `_validate_complete_inputs` reads `pipeline.topological_generations` before it can raise: the lazy checks precede
+    `complete-inputs` in `startSteps2` -/
+theorem C12_lazy_complete_inputs :
+    (requiredBefore ["pipeline.topological_generations"] "raise" Generated.validateCompleteInputsCalls &&
+     Generated.validateCompleteInputsCalls.contains "raise") = true := by decide
+
+/-- `Pipeline.run` computes `func_dependencies` (→ `graph`, generations) before `_run` evaluates anything (`startRun`) -/
+theorem C12_lazy_run :
+    (requiredBefore ["self.func_dependencies"] "self._run" Generated.pipelineRunCalls && Generated.pipelineRunCalls.contains "self._run") = true := by
+  decide
+
+/-- `PipeFunc.update_defaults / update_bound / update_renames`: the keys are validated, the caches cleared (those of the pipelines
+    too), the function re-validated — in this order (`memberDefaults` / `memberBound` / `memberRename`) -/
+theorem C12_update_member :
+    (isSubseq ["self._validate_update", "self._clear_internal_cache", "self._validate"] Generated.pipeFuncUpdateDefaultsCalls &&
+     isSubseq ["self._validate_update", "self._clear_internal_cache", "self._validate"] Generated.pipeFuncUpdateBoundCalls &&
+     isSubseq ["self._validate_update", "self._clear_internal_cache", "self._validate"] Generated.pipeFuncUpdateRenamesCalls &&
+     Generated.pipeFuncClearCacheCalls.contains "pipeline._clear_internal_cache") = true := by decide
+
+/-- `Pipeline.update_defaults / update_renames`: the members are updated, the caches cleared, unused keys refused, then
+    `Pipeline._validate` (`pipeFinish`) -/
+theorem C12_update_pipeline :
+    (isSubseq ["f.update_defaults", "self._clear_internal_cache", "raise", "self._validate"] Generated.pipelineUpdateDefaultsCalls &&
+     isSubseq ["f.update_renames", "self._clear_internal_cache", "raise", "self._validate"] Generated.pipelineUpdateRenamesCalls) = true := by
+  decide
+
+/-- `prepare_run` validates the executor dictionary after the executor/parallel test and `subpipeline`, before
+    `_validate_complete_inputs` and before any effect (the order of `gateSteps`) -/
+theorem C12_order_executor_names :
+    (isSubseq ["raise", "pipeline.subpipeline", "_validate_executor_names", "_validate_complete_inputs", "run_info._dump_all"]
+      Generated.prepareRunCalls && (beforeFirstEffect Generated.prepareRunCalls).contains "_validate_executor_names") = true := by decide
 
 end PF.C12
